@@ -302,7 +302,7 @@ fn run_seq(p: &SeqPlan, pool: &Pool, tmp: &str) -> Result<Vec<Value>, String> {
 			}
 		}
 	};
-	let before_eof = wait_closed(&mut w, if expect_close { Duration::from_secs(8) } else { Duration::from_millis(30) }, &mut buf);
+	let before_eof = wait_closed(&mut w, if expect_close { Duration::from_secs(5) } else { Duration::from_millis(30) }, &mut buf);
 	let mut closed = before_eof;
 	if !closed {
 		let _ = w.shutdown(Shutdown::Write);
@@ -445,7 +445,7 @@ pub fn record(args: &Args) -> i32 {
 	let next = Arc::new(std::sync::atomic::AtomicUsize::new(0));
 	let results: Arc<Mutex<Vec<(usize, Result<Vec<Value>, String>)>>> = Arc::new(Mutex::new(vec![]));
 	let mut handles = vec![];
-	for _ in 0..total.min(32) {
+	for _ in 0..total.min(64) {
 		let (plans, next, results, pool, tmp) = (plans.clone(), next.clone(), results.clone(), pool.clone(), tmp.clone());
 		handles.push(thread::spawn(move || loop {
 			let j = next.fetch_add(1, std::sync::atomic::Ordering::SeqCst);
